@@ -36,11 +36,13 @@ use undermoon::proxy::service::{ClusterNodesVersion, ServerProxyConfig};
 use undermoon::proxy::session::{CmdCtx, CmdCtxHandler};
 use undermoon::proxy::slowlog::SlowRequestLogger;
 
-pub const PROXY_ADDR: [&str; 2] = ["127.0.1.1:7001", "127.0.2.1:7002"];
-pub const PROXY_HOST: [&str; 2] = ["127.0.1.1", "127.0.2.1"];
-pub const NODE_ADDR: [&str; 2] = ["127.0.1.1:6001", "127.0.2.1:6002"];
-pub const PROXY_NAME: [&str; 2] = ["P1", "P2"];
-pub const NODE_NAME: [&str; 2] = ["R1", "R2"];
+// P3/R3 exist only in the `multi` scenarios (a second destination of the same source proxy)
+pub const NPROXY: usize = 3;
+pub const PROXY_ADDR: [&str; 3] = ["127.0.1.1:7001", "127.0.2.1:7002", "127.0.3.1:7003"];
+pub const PROXY_HOST: [&str; 3] = ["127.0.1.1", "127.0.2.1", "127.0.3.1"];
+pub const NODE_ADDR: [&str; 3] = ["127.0.1.1:6001", "127.0.2.1:6002", "127.0.3.1:6003"];
+pub const PROXY_NAME: [&str; 3] = ["P1", "P2", "P3"];
+pub const NODE_NAME: [&str; 3] = ["R1", "R2", "R3"];
 pub const CLUSTER: &str = "c";
 pub const SLOT_MAX: usize = 16383;
 
@@ -173,8 +175,8 @@ pub struct World {
     pub seq: AtomicU64,
     pub trace: Mutex<Vec<(u64, Value)>>,
     pub ids: AtomicU64,
-    pub nodes: [Node; 2],
-    pub handlers: Mutex<[Option<Handler>; 2]>,
+    pub nodes: [Node; 3],
+    pub handlers: Mutex<[Option<Handler>; 3]>,
     pub lat_us: u64,
     pub seed: u64,
     pub spin: bool,
@@ -201,8 +203,11 @@ impl World {
                 Node {
                     store: Mutex::new(mk()),
                 },
+                Node {
+                    store: Mutex::new(mk()),
+                },
             ],
-            handlers: Mutex::new([None, None]),
+            handlers: Mutex::new([None, None, None]),
             lat_us,
             seed,
             spin,
@@ -236,6 +241,7 @@ impl World {
         let mut g = self.handlers.lock();
         g[0] = None;
         g[1] = None;
+        g[2] = None;
     }
 
     async fn latency(&self, rng: &Rng) {
@@ -590,6 +596,10 @@ pub struct Topo {
     pub hi: usize,
     pub scan_count: u64,
     pub scan_interval: u64,
+    // the moving region lo..=hi is split into `parts` consecutive ranges, each its own migration task of the source
+    // proxy P1; part j goes to destination proxy 1 + j % ndst (ndst = 1: everything to P2, ndst = 2: P2 and P3)
+    pub parts: usize,
+    pub ndst: usize,
 }
 
 fn stable(ranges: Vec<(usize, usize)>) -> SlotRange {
@@ -611,49 +621,101 @@ impl Topo {
         v
     }
 
-    pub fn migration_meta(&self) -> MigrationMeta {
+    pub fn nparts(&self) -> usize {
+        self.parts.max(1)
+    }
+
+    pub fn nproxies(&self) -> usize {
+        1 + self.ndst.max(1).min(NPROXY - 1)
+    }
+
+    pub fn part_range(&self, j: usize) -> (usize, usize) {
+        let n = self.nparts();
+        let len = self.hi - self.lo + 1;
+        let a = self.lo + len * j / n;
+        let b = self.lo + len * (j + 1) / n - 1;
+        (a, b)
+    }
+
+    pub fn part_dst(&self, j: usize) -> usize {
+        1 + j % self.ndst.max(1).min(NPROXY - 1)
+    }
+
+    pub fn part_of_slot(&self, slot: usize) -> Option<usize> {
+        (0..self.nparts()).find(|j| {
+            let (a, b) = self.part_range(*j);
+            slot >= a && slot <= b
+        })
+    }
+
+    pub fn migration_meta_of(&self, j: usize) -> MigrationMeta {
+        let d = self.part_dst(j);
         MigrationMeta {
             epoch: 2,
             src_proxy_address: PROXY_ADDR[0].to_string(),
             src_node_address: NODE_ADDR[0].to_string(),
-            dst_proxy_address: PROXY_ADDR[1].to_string(),
-            dst_node_address: NODE_ADDR[1].to_string(),
+            dst_proxy_address: PROXY_ADDR[d].to_string(),
+            dst_node_address: NODE_ADDR[d].to_string(),
         }
     }
 
-    // slot ranges of node R1 (idx 0) / R2 (idx 1) at stage 1 (before), 2 (migrating), 3 (committed)
+    pub fn migration_meta(&self) -> MigrationMeta {
+        self.migration_meta_of(0)
+    }
+
+    // slot ranges of node R<idx+1> at stage 1 (before), 2 (migrating), 3 (committed)
     fn node_slots(&self, idx: usize, stage: u64) -> Vec<SlotRange> {
-        let moving = RangeList::new(vec![Range(self.lo, self.hi)]);
+        let part = |j: usize| {
+            let (a, b) = self.part_range(j);
+            RangeList::new(vec![Range(a, b)])
+        };
+        let mine: Vec<usize> = (0..self.nparts()).filter(|j| self.part_dst(*j) == idx).collect();
         match (idx, stage) {
             (0, 1) => vec![stable(vec![(0, SLOT_MAX)])],
-            (1, 1) => vec![],
-            (0, 2) => vec![
-                stable(self.rest()),
-                SlotRange {
-                    range_list: moving,
-                    tag: SlotRangeTag::Migrating(self.migration_meta()),
-                },
-            ],
-            (1, 2) => vec![SlotRange {
-                range_list: moving,
-                tag: SlotRangeTag::Importing(self.migration_meta()),
-            }],
+            (_, 1) => vec![],
+            (0, 2) => {
+                let mut v = vec![stable(self.rest())];
+                for j in 0..self.nparts() {
+                    v.push(SlotRange {
+                        range_list: part(j),
+                        tag: SlotRangeTag::Migrating(self.migration_meta_of(j)),
+                    });
+                }
+                v
+            }
+            (_, 2) => mine
+                .iter()
+                .map(|j| SlotRange {
+                    range_list: part(*j),
+                    tag: SlotRangeTag::Importing(self.migration_meta_of(*j)),
+                })
+                .collect(),
             (0, _) => vec![stable(self.rest())],
-            (_, _) => vec![stable(vec![(self.lo, self.hi)])],
+            (_, _) => {
+                if mine.is_empty() {
+                    vec![]
+                } else {
+                    vec![stable(mine.iter().map(|j| self.part_range(*j)).collect())]
+                }
+            }
         }
     }
 
     pub fn meta(&self, proxy: usize, stage: u64) -> ProxyClusterMeta {
-        let other = 1 - proxy;
         let mut local = HashMap::new();
         let mine = self.node_slots(proxy, stage);
         if !mine.is_empty() {
             local.insert(NODE_ADDR[proxy].to_string(), mine);
         }
         let mut peer = HashMap::new();
-        let theirs = self.node_slots(other, stage);
-        if !theirs.is_empty() {
-            peer.insert(PROXY_ADDR[other].to_string(), theirs);
+        for other in 0..self.nproxies() {
+            if other == proxy {
+                continue;
+            }
+            let theirs = self.node_slots(other, stage);
+            if !theirs.is_empty() {
+                peer.insert(PROXY_ADDR[other].to_string(), theirs);
+            }
         }
         let config = ClusterConfig {
             compression_strategy: CompressionStrategy::Disabled,
@@ -736,4 +798,38 @@ pub async fn phase_of(world: &Arc<World>, proxy: usize) -> &'static str {
         }
     }
     "none"
+}
+
+// the states of ALL migration tasks a proxy reports (UMCTL INFO -> "Migration" section), for the `multi` scenarios
+pub async fn mig_states(world: &Arc<World>, proxy: usize) -> Vec<&'static str> {
+    let handler = match world.handler(proxy) {
+        Some(h) => h,
+        None => return vec![],
+    };
+    let reply = tokio::time::timeout(
+        Duration::from_secs(5),
+        send_cmd(&handler, vec![b"UMCTL".to_vec(), b"INFO".to_vec()]),
+    )
+    .await;
+    let arr = match reply {
+        Ok(Some(Resp::Arr(Array::Arr(a)))) => a,
+        _ => return vec![],
+    };
+    let lines = match arr.get(5) {
+        Some(Resp::Arr(Array::Arr(l))) => l,
+        _ => return vec![],
+    };
+    let mut out = vec![];
+    for l in lines.iter() {
+        if let Resp::Bulk(BulkStr::Str(b)) = l {
+            let s = String::from_utf8_lossy(b).to_string();
+            if s.starts_with("name:") {
+                continue;
+            }
+            if let Some(last) = s.split(' ').last() {
+                out.push(state_word(last));
+            }
+        }
+    }
+    out
 }
